@@ -33,12 +33,13 @@ def check(ctx: Ctx) -> None:
     r3(ctx, "C05.R3")
     r4(ctx, "C05.R4")
     r5(ctx)
-    from .c06 import r1 as c06_r1, r2 as c06_r2, r3 as c06_r3
+    from .c06 import r1 as c06_r1, r2 as c06_r2, r3 as c06_r3, r_honoured
     c06_r1(ctx, "C05.R6")
     c06_r3(ctx, "C05.R7")
     c06_r2(ctx, "C05.R8")
     from .c20 import r5 as c20_r5
     c20_r5(ctx, "C05.R9")
+    r_honoured(ctx, "C05.R10")
 
 
 def reach_sets(ctx: Ctx) -> Dict[str, str]:
@@ -169,7 +170,7 @@ def r1_noskip(ctx: Ctx, rid: str) -> None:
                "that snapshot's manifests and data files from the reachable set; the sweep then deletes them",
                witness=ctx.path_witness(f, w), text=sname)
         # and each element read is then consumed: the loop over its result feeds the next set
-    for sname in (rs["manifest_path"], rs["file_path"]):
+    for sname in (rs["manifest_list"], rs["manifest_path"], rs["file_path"]):
         adds = set_adds(ctx, f, sname)
         for a in adds:
             encl = [fr.node for fr in a.frames if fr.kind == "loop"]
